@@ -157,7 +157,8 @@ _add(
     " M in 0..23): the int32 bit reinterpretation acts on a float32 value on every path and the result is cast back to"
     " x.dtype; no in-place op on an alias of the argument; the returned dataflow term equals the reference pipeline with"
     " mask 2^(23-M)-1, offset in {floor,ceil}(mask/2) (exhaustive over M), downscale 2^(127-2^(E-1)), clip at max; unknown"
-    " mode raises ValueError; range properties consistent. Per-bit-pattern neighbour/idempotence/monotonicity clauses are"
+    " mode raises ValueError; range properties consistent; a rank-0 input keeps the int32 pattern int32 (0-d promotion); the"
+    " clip bound is a float or a 64-bit int for every format (number-kind mode). Per-bit-pattern neighbour/idempotence/monotonicity clauses are"
     " NOT decidable statically and are not claimed.",
     TRUST + " That add-half-then-truncate on the float32 pattern rounds to nearest is an integer-arithmetic argument, not mechanised here.",
     AIX + " + dtype typestate + term equality with reference pipeline (finite-domain exact comparison of constants)",
@@ -205,8 +206,9 @@ _add(
     " which the composite backend closes over; composition applies each backend once in order; _order_backends puts the"
     " backend unit_scale installed before the one simulate_format installed for every order (name coupling through the"
     " real closures' __qualname__); both user orders end [unit, quant]; rerun/base_forward cache flags, Dynamo reset before"
-    " re-tracing; every public entry point returns a copy (also for lossless formats); a torch.nn root is entered through a"
-    " library function; mutable defaults never mutated.",
+    " re-tracing; every public entry point returns a copy (also for lossless formats) that shares no parameter, sub-module"
+    " or tensor with its input (frozen parameters included); a root whose forward is torch.nn's (also inherited by a user"
+    " subclass) is entered through a library function; mutable defaults never mutated.",
     TRUST + " Equality of outputs across orders, storage independence at run time and Dynamo caching are not decided.",
     AIX + " (ownership / copy-before-write, provenance of backend objects)",
 )
